@@ -28,7 +28,6 @@ WildMatch(h, d, psl) ==
 SubOfAny(h, D, psl) == h # <<>> /\ \E d \in D : IF IsWild(d) THEN WildMatch(h, d, psl) ELSE Sub(h, d)
 
 (* ---- abstract PSL: one rule of each kind ---- *)
-L(s) == s   \* readability only: a label
 PSLNormal    == { <<Str("org")>>, <<Str("com")>>, <<Str("net")>>, <<Str("uk")>>, <<Str("ck")>> }   \* ICANN, one label
 PSLTwo       == { <<Str("co"), Str("uk")>> }                                            \* ICANN, two labels
 PSLWildcard  == { <<Str("ck")>> }                                                    \* *.ck
